@@ -26,6 +26,8 @@ type readResult struct {
 	M   []string `json:"m"`
 	// the image as the disk state of SimpleDBDisk.tla, decoded before the recovery touched it
 	Disk *diskImage `json:"disk,omitempty"`
+	// "" or what went wrong when work continued after the recovery: one more Put, a regular flush, all keys read, clean restart, all keys read
+	Cont string `json:"cont"`
 }
 
 type dbreadIn struct {
@@ -34,11 +36,64 @@ type dbreadIn struct {
 	Dirs []string `json:"dirs"`
 	// decode every image into the specification's disk state first
 	Decode bool `json:"decode"`
+	// continue to work after the recovery (Put + flush + read + restart + read) and compare with what the recovery itself showed
+	Cont bool `json:"cont"`
 }
 
 func init() { register("dbread", runDBRead) }
 
-func readOne(dir string, keys [][]byte, n int, decode bool) (res readResult) {
+func readAll(db *simpledb.DB, keys [][]byte, n int) []string {
+	m := []string{}
+	for i := 0; i < n && i < len(keys); i++ {
+		v, err := db.GetBytes(keys[i])
+		switch {
+		case errors.Is(err, simpledb.ErrNotFound):
+			m = append(m, "none")
+		case err != nil:
+			m = append(m, "err:"+err.Error())
+		default:
+			m = append(m, valToken(v))
+		}
+	}
+	return m
+}
+
+// the session that recovered the directory goes on working: its first regular flush and a clean restart must keep what was recovered
+func continueAfterRecovery(db *simpledb.DB, dir string, keys [][]byte, n int, recovered []string) string {
+	if n < 1 || len(keys) < n {
+		return ""
+	}
+	want := append([]string{}, recovered...)
+	marker := valBytes("cont", 3)
+	if err := db.PutBytes(keys[n-1], marker); err != nil {
+		return "put after recovery: " + err.Error()
+	}
+	want[n-1] = valToken(marker)
+	if err := db.VerifRotate(); err != nil {
+		return "rotation after recovery: " + err.Error()
+	}
+	db.VerifFlushBarrier()
+	if got := readAll(db, keys, n); fmt.Sprint(got) != fmt.Sprint(want) {
+		return fmt.Sprintf("after the first flush of the recovering session: %v, expected %v", got, want)
+	}
+	if err := db.Close(); err != nil {
+		return "close: " + err.Error()
+	}
+	db2, err := simpledb.NewSimpleDB(dir, simpledb.DisableCompactions())
+	if err == nil {
+		err = db2.Open()
+	}
+	if err != nil {
+		return "restart after recovery + flush: " + err.Error()
+	}
+	defer db2.Close()
+	if got := readAll(db2, keys, n); fmt.Sprint(got) != fmt.Sprint(want) {
+		return fmt.Sprintf("after recovery + flush + restart: %v, expected %v", got, want)
+	}
+	return ""
+}
+
+func readOne(dir string, keys [][]byte, n int, decode bool, cont bool) (res readResult) {
 	res.Dir = dir
 	res.M = []string{}
 	if decode {
@@ -60,16 +115,13 @@ func readOne(dir string, keys [][]byte, n int, decode bool) (res readResult) {
 		res.Err = "open: " + err.Error()
 		return
 	}
-	for i := 0; i < n && i < len(keys); i++ {
-		v, err := db.GetBytes(keys[i])
-		switch {
-		case errors.Is(err, simpledb.ErrNotFound):
-			res.M = append(res.M, "none")
-		case err != nil:
-			res.M = append(res.M, "err:"+err.Error())
-		default:
-			res.M = append(res.M, valToken(v))
-		}
+	res.M = readAll(db, keys, n)
+	if cont {
+		// (closes the handle itself on its way)
+		res.Cont = continueAfterRecovery(db, dir, keys, n, res.M)
+		db.Close()
+		res.Ok = true
+		return
 	}
 	if err := db.Close(); err != nil {
 		res.Err = "close: " + err.Error()
@@ -94,7 +146,7 @@ func runDBRead(args []string) error {
 	}
 	enc := json.NewEncoder(os.Stdout)
 	for _, d := range in.Dirs {
-		enc.Encode(readOne(d, keys, in.N, in.Decode))
+		enc.Encode(readOne(d, keys, in.N, in.Decode, in.Cont))
 	}
 	return nil
 }
